@@ -49,8 +49,7 @@ def rhs_class(b, s, op):
     return "other:" + show(e)[:60]
 
 
-def r1_no_wrapping(ctx, P):
-    R = "C12.R1"
+def r1_no_wrapping(ctx, P, R="C12.R1"):
     ctx.rule(R, "no plain/wrapping/unchecked + or * on sizes; plain - only where tabled with a reason")
     bodies = size_bodies(P)
     ctx.floor(R, "size-computation bodies", len(bodies), 15)
@@ -287,8 +286,7 @@ def r7_chunk_for_layout(ctx, P, R="C12.R7"):
     ctx.floor(R, "chunk creations for a layout", n, 2)
 
 
-def r3_growth(ctx, P):
-    R = "C12.R3"
+def r3_growth(ctx, P, R="C12.R3"):
     ctx.rule(R, "append_for sizes the new chunk by max(hint for the layout, checked 2 x current size)")
     bs = [b for b in P.fn_bodies() if b.item["name"] == "append_for" and "NonDummyChunk" in b.path]
     if ctx.need(len(bs) == 1, R, "NonDummyChunk::append_for"):
